@@ -219,6 +219,15 @@ func replayTimeout(a *hk.Args) error {
 			fail := func(sig, d string) {
 				res.Status, res.Sig, res.Detail, res.Scenario = "violation", sig, d, b
 			}
+			// was the scripted order (action end vs deadline) really realised? On a loaded machine the action may start
+			// later than the spacing of the script allows for: such a run says nothing about the behaviour it replays
+			finishFirst := af >= 0 && (tf < 0 || af < tf)
+			marginUs := int64(step / 3 / time.Microsecond)
+			if o.Returned && o.ActionEnded && ((finishFirst && o.EndOffsetUs > -marginUs) || (!finishFirst && !o.SawStop && o.EndOffsetUs < marginUs)) {
+				res.Status, res.Detail = "skip", fmt.Sprintf("scripted order not realised under load (action end offset %dus)", o.EndOffsetUs)
+				w.Write(res)
+				return
+			}
 			switch {
 			case !o.Returned:
 				fail("runner-never-returns", fmt.Sprintf("RunActionWithTimeout(%v) did not return; action listen=%s finishes after %v, listens from %v; model steps %v", timeout, b.Listen, finishAfter, listenFrom, b.Steps))
@@ -399,16 +408,22 @@ func runCtx(id int, b *ctxBehaviour) hk.Result {
 	}
 	parent, parentCancel := context.WithCancel(context.Background())
 	defer parentCancel()
-	if (pc >= 0 && pc < rc) || (pc < 0 && b.ParentDone) {
+	// the instants at which the scripted events really happened (nanoseconds since the runner was called; 0 = not yet)
+	var parentAt, actionStartAt atomic.Int64
+	var t0 time.Time
+	cancelParent := func() {
+		parentAt.Store(int64(time.Since(t0)) + 1)
 		parentCancel()
-	} else if pc >= 0 {
-		tm := time.AfterFunc(at["parent"], parentCancel)
-		defer tm.Stop()
+	}
+	preCancelled := (pc >= 0 && pc < rc) || (pc < 0 && b.ParentDone)
+	if preCancelled {
+		parentCancel()
 	}
 	var ran, ended atomic.Bool
 	var actionCtx atomic.Value
 	action := func(ctx context.Context) error {
 		ran.Store(true)
+		actionStartAt.Store(int64(time.Since(t0)) + 1)
 		actionCtx.Store(ctx)
 		defer ended.Store(true)
 		finish := time.NewTimer(at["finish"])
@@ -430,6 +445,12 @@ func runCtx(id int, b *ctxBehaviour) hk.Result {
 	done := make(chan error, 1)
 	store := parallelisation.NewCancelFunctionsStore()
 	go func() {
+		// every scripted instant is counted from here, in this goroutine, right before the call
+		t0 = time.Now()
+		if !preCancelled && pc >= 0 {
+			tm := time.AfterFunc(at["parent"], cancelParent)
+			defer tm.Stop()
+		}
 		if b.Deferred {
 			done <- parallelisation.RunActionWithTimeoutAndContext(parent, at["timer"], action)
 		} else {
@@ -445,6 +466,32 @@ func runCtx(id int, b *ctxBehaviour) hk.Result {
 			return res
 		}
 		return fail("runner-never-returns", fmt.Sprintf("context runner did not return; steps %v", b.Steps))
+	}
+	// did the scripted order of the timed events really happen? (a loaded machine can delay a timer or the start of the
+	// action by more than the spacing of the script: then this run says nothing about the behaviour it was meant to replay)
+	{
+		real := map[string]time.Duration{}
+		if tf >= 0 {
+			real["timer"] = at["timer"]
+		}
+		if v := parentAt.Load(); v > 0 {
+			real["parent"] = time.Duration(v - 1)
+		} else if !preCancelled && pc >= 0 {
+			real["parent"] = far
+		}
+		if af >= 0 {
+			if v := actionStartAt.Load(); v > 0 {
+				real["finish"] = time.Duration(v-1) + at["finish"]
+			}
+		}
+		for i := 0; i+1 < len(ts); i++ {
+			x, okx := real[ts[i].name]
+			y, oky := real[ts[i+1].name]
+			if okx && oky && y-x < step/3 {
+				res.Status, res.Detail = "skip", fmt.Sprintf("scripted order %s < %s not realised under load (%v vs %v)", ts[i].name, ts[i+1].name, x, y)
+				return res
+			}
+		}
 	}
 	got := ctxKind(rerr)
 	want := b.Ret
